@@ -31,6 +31,27 @@ KANI_RANGES = {
 
 import c15_extract
 import c12_extract
+import c14_extract
+
+_C14_LENS = ["len_%d" % n for n in range(8)]
+KANI_URL_LOCALE = {
+    "name": "c14_kani_url_locale",
+    "cwd": lambda repo, root: __import__("os").path.join(root, "kani-crates", "c14"),
+    "prepare": c14_extract.prepare,
+    "module": "proofs",
+    "harness_files": ["kani-crates/c14/src/lib.rs"],
+    "features": [],
+    "flags": [],
+    "quick": ["%s::%s" % (m, h) for m in _C14_LENS[:6] for h in ("precondition_satisfiable", "root", "base")],
+    "thorough": ["%s::%s" % (m, h) for m in _C14_LENS for h in ("precondition_satisfiable", "root", "base")],
+    "timeout": 1800,
+    "procs": 10,
+    "target_tag": "c14",
+    "bounded": "paths of at most 5 (quick) / 7 (thorough) characters after the base path, over the characters of the "
+               "locale names, `/` and one other letter; locales en, en-US, fr in both listing orders; base paths "
+               "\"\" and /a",
+    "source_hint": "leptos_i18n_router/src/routing.rs",
+}
 
 _PO = ["po_1_1", "po_2_1", "po_1_2", "po_2_2", "po_3_1", "po_3_2"]
 KANI_NEGOTIATION = {
@@ -125,6 +146,13 @@ PROPS = {
         "explanation": "bounded model checking (Kani/CBMC) of the negotiation functions of langid.rs, extracted verbatim "
                        "(one rewrite) and compiled against small stand-ins for icu_locid's types and for std's Vec; "
                        "a stand-in, not a proof: list lengths and the subtag universe are bounded",
+    },
+    "C14": {
+        "level": "model_checking",
+        "verus": [],
+        "kani": [KANI_URL_LOCALE],
+        "explanation": "bounded model checking (Kani/CBMC) of get_locale_from_path, extracted verbatim; "
+                       "a stand-in, not a proof: path length and alphabet are bounded; first sentence of the property only",
     },
     "C18": {
         "level": "model_checking",
